@@ -116,6 +116,9 @@ def run(ctx):
         "real_violations_beyond_the_transcription": ["%s %s %s" % (c[0], list(c[1]), c[2]) for c in beyond][:20],
         "pair_candidates_not_executed_or_unmatched": sum(1 for c in cands if not single(c) and c not in real),
         "runs_violating": len(violating), "violation_keys": sorted(set(keys)),
+        # attribution aid (C07's subject): a sequence given back by an unused-sequence document although a stored document / principal carries it
+        "runs_releasing_a_sequence_in_use": ["%s %s" % (ru["type"], ru["faults"]) for ru in runs.values()
+                                             if set(ru["end"]["given"]) & set(ru["end"].get("used") or [])][:10],
     }
     if unconfirmed:
         msg = "model candidate(s) not reproduced on the real code (the transcription is wrong about the code): %s" % unconfirmed[:5]
